@@ -18,6 +18,8 @@ type TypeConverter struct {
 	// They already carry their final name and must not be resolved a second time
 	// through the import names of a source file.
 	qualifiers map[*ast.Ident]bool
+	// declaredNames maps a package path to the name the package declares, when known.
+	declaredNames map[string]string
 }
 
 // NewTypeConverter creates a new TypeConverter for the given package.
@@ -41,6 +43,14 @@ func (tc *TypeConverter) qualifierIdent(name string) *ast.Ident {
 	return ident
 }
 
+// RecordPackageName records the name that the package with the given path declares.
+func (tc *TypeConverter) RecordPackageName(path, name string) {
+	if tc.declaredNames == nil {
+		tc.declaredNames = make(map[string]string)
+	}
+	tc.declaredNames[path] = name
+}
+
 // Imports returns the collected import specifications needed for the generated code.
 // Each path appears exactly once (guaranteed by the map structure).
 func (tc *TypeConverter) Imports() []ImportSpec {
@@ -56,8 +66,11 @@ func (tc *TypeConverter) Imports() []ImportSpec {
 		spec := ImportSpec{Path: path}
 		// Only set name (alias) if it differs from the last element of the path.
 		// This avoids redundant aliases like: v1 "github.com/.../v1"
+		// The alias must stay when the package is known to declare another name
+		// (e.g. v2 "example.com/api/v2" where the package is called api).
 		pkgName := lastPathElement(path)
-		if name != pkgName {
+		declared, known := tc.declaredNames[path]
+		if name != pkgName || (known && declared != name) {
 			spec.Name = name
 		}
 		specs = append(specs, spec)
